@@ -3555,7 +3555,14 @@ func (a *Association) handleForwardTSN(chunkTSN *chunkForwardTSN) []*packet {
 	// corresponding streams so that the abandoned chunks can be removed
 	// from the reassemblyQueue.
 	for _, forwarded := range chunkTSN.streams {
-		if s, ok := a.streams[forwarded.identifier]; ok {
+		s, ok := a.streams[forwarded.identifier]
+		if !ok {
+			// The skipped message was the first one on this stream. Create the
+			// stream so the skip is remembered; otherwise later ordered messages
+			// would wait forever for the abandoned SSN.
+			s = a.getOrCreateStream(forwarded.identifier, true, PayloadTypeUnknown)
+		}
+		if s != nil {
 			s.handleForwardTSNForOrdered(forwarded.sequence)
 		}
 	}
@@ -3596,7 +3603,13 @@ func (a *Association) handleIForwardTSN(chunkTSN *chunkIForwardTSN) []*packet {
 	a.payloadQueue.advanceCumulativeTSN(chunkTSN.newCumulativeTSN)
 
 	for _, forwarded := range chunkTSN.streams {
-		if s, ok := a.streams[forwarded.identifier]; ok {
+		s, ok := a.streams[forwarded.identifier]
+		if !ok && !forwarded.unordered {
+			// See handleForwardTSN: remember an ordered skip on a stream that has
+			// not seen any data yet.
+			s = a.getOrCreateStream(forwarded.identifier, true, PayloadTypeUnknown)
+		}
+		if s != nil {
 			if forwarded.unordered {
 				s.handleForwardTSNForUnorderedMID(forwarded.messageIdentifier)
 			} else {
